@@ -363,6 +363,47 @@ func checkC19(c C19Case, o *Obs) error {
 			}
 		}
 	}
+	// One iterator value ranged over inside its own loop body (all pairs of nodes:
+	// it := t.PostOrder(); for a := range it { for b := range it { ... } }).
+	if len(nodes) <= 60 {
+		for _, pre := range []bool{true, false} {
+			it, want, name := root.PostOrder(), refPostOrder(root, nil), "PostOrder"
+			if pre {
+				it, want, name = root.PreOrder(), refPreOrder(root, nil), "PreOrder"
+			}
+			k := 0
+			var nerr error
+			if p := catch(func() {
+				for a := range it {
+					if k >= len(want) || a != want[k] {
+						nerr = fmt.Errorf("%s: one iterator value ranged over inside its own loop body: outer item %d is wrong (parents %s)", name, k, abbreviateInts(pa))
+						return
+					}
+					k++
+					j := 0
+					for b := range it {
+						if j >= len(want) || b != want[j] {
+							nerr = fmt.Errorf("%s: one iterator value ranged over inside its own loop body: inner pass %d, item %d is wrong (parents %s)", name, k, j, abbreviateInts(pa))
+							return
+						}
+						j++
+					}
+					if j != len(want) {
+						nerr = fmt.Errorf("%s: one iterator value ranged over inside its own loop body: inner pass %d yields %d nodes, want %d (parents %s)", name, k, j, len(want), abbreviateInts(pa))
+						return
+					}
+				}
+			}); p != nil {
+				return fmt.Errorf("%s: one iterator value ranged over inside its own loop body panicked: %v (parents %s)", name, p, abbreviateInts(pa))
+			}
+			if nerr != nil {
+				return nerr
+			}
+			if k != len(want) {
+				return fmt.Errorf("%s: one iterator value ranged over inside its own loop body: the outer pass yields %d nodes, want %d (parents %s)", name, k, len(want), abbreviateInts(pa))
+			}
+		}
+	}
 	// The value returned by PreOrder/PostOrder stands for the traversal: ranging over it again,
 	// also after an abandoned pass (of this or of another iterator), visits every node again.
 	if len(nodes) <= 5000 {
